@@ -104,7 +104,7 @@ BASE = {"src/a.py": H + "a = 1\n", "src/b.c": "int b;\n", "LICENSES/MIT.txt": "m
 
 def bounds(tier, seed):
     return {"toml_keys": KEYS, "toml_shapes": list(SHAPES), "toml_pairs": tier == "thorough", "broken_toml": list(BROKEN_TOML), "broken_dep5": list(BROKEN_DEP5),
-            "gitmodules_shapes": list(GITMODULES), "gitignore_shapes": list(GITIGNORE), "byte_classes": list(byte_classes()), "commands": COMMANDS, "io_fault_errnos": ["EACCES", "ENOENT", "EISDIR", "EIO"],
+            "broken_templates": 8, "gitmodules_shapes": list(GITMODULES), "gitignore_shapes": list(GITIGNORE), "byte_classes": list(byte_classes()), "commands": COMMANDS, "io_fault_errnos": ["EACCES", "ENOENT", "EISDIR", "EIO"],
             "io_faults": "every single k-th open" + (" and every pair" if tier == "thorough" else "")}
 
 
@@ -151,6 +151,12 @@ def cases(tier, seed):
         yield {"k": "vcsmeta", "file": ".gitmodules", "name": name}
     for name in GITIGNORE:
         yield {"k": "vcsmeta", "file": ".gitignore", "name": name}
+    from ..annot import TEMPLATES
+
+    for name in TEMPLATES:
+        if name.startswith("broken-"):
+            for target in ("in-file", "force-dot-license", "fallback-dot-license"):
+                yield {"k": "template", "name": name, "target": target}
     for cls in byte_classes():
         for place in ("header", "dot-license"):
             yield {"k": "bytes", "cls": cls, "place": place}
@@ -296,6 +302,30 @@ def ev_vcsmeta(c) -> R:
     return r
 
 
+def ev_template(c) -> R:
+    """A template file below .reuse/templates is a project file too."""
+    from ..annot import template_recipe
+
+    r = R()
+    root = fresh_dir("c16")
+    rec = dict(BASE)
+    rec["REUSE.toml"] = toml_with({})
+    rec.update(template_recipe([c["name"]]))
+    rec["data.xyz"] = "data\n"
+    materialise(root, rec)
+    argv = ["--root", str(root), "annotate", "--copyright", "Kim", "--license", "MIT", "--year", "2020", "--template", c["name"]]
+    if c["target"] != "in-file":
+        argv.append("--" + c["target"])
+    paths = [str(root / "src/b.c"), str(root / "src/a.py")] + ([str(root / "data.xyz")] if c["target"] == "fallback-dot-license" else [])
+    out = run_cli(argv + paths)
+    judge(r, out, "annotate --template", f"template {c['name']} ({c['target']})", f"template|{c['name']}")
+    if out.exc is None and out.exit_code == 0:
+        r.violation(f"broken-template-accepted|{c['name']}", f"template {c['name']}: annotate exit 0")
+    r.outcome = "template"
+    r.tags.append("template")
+    return r
+
+
 def ev_dep5(c) -> R:
     r = R()
     for cmd in COMMANDS:
@@ -436,7 +466,7 @@ def ev_io(c) -> R:
     return r
 
 
-_EV = {"vcsmeta": ev_vcsmeta, "glob": ev_glob, "toml": ev_toml, "broken-toml": ev_broken_toml, "dep5": ev_dep5, "bytes": ev_bytes, "licenses": ev_licenses, "io": ev_io}
+_EV = {"vcsmeta": ev_vcsmeta, "template": ev_template, "glob": ev_glob, "toml": ev_toml, "broken-toml": ev_broken_toml, "dep5": ev_dep5, "bytes": ev_bytes, "licenses": ev_licenses, "io": ev_io}
 
 
 def evaluate(c) -> R:
@@ -458,7 +488,7 @@ def run(tier, seed):
     return finish(
         ID, "fault_enumeration", MODULE, tier, seed, st, t0,
         rule=("every REUSE.toml key x every TOML value shape (root and nested file; pairs of keys: one key row per seed in quick, all in thorough), "
-              "15 structurally broken TOML files, 18 broken or odd dep5 files + conflicts, 16 .gitmodules and 9 .gitignore shapes inside a Git repository, 11 hostile byte classes x {header, .license}, 5 LICENSES/ oddities, and an "
+              "15 structurally broken TOML files, 18 broken or odd dep5 files + conflicts, 16 .gitmodules and 9 .gitignore shapes inside a Git repository, 8 unloadable / unrenderable templates x 3 targets, 11 hostile byte classes x {header, .license}, 5 LICENSES/ oddities, and an "
               "I/O fault (4 errnos) injected at the k-th open of a project file for every k (and every pair in thorough), each under 8 subcommands (4 for "
               "I/O faults); oracle: exit status in {0,1,2}, no escaping exception, configuration errors exit 2 naming the file, other files still reported; "
               "non-trivial = the malformed value / fault was actually reached"),
